@@ -402,6 +402,21 @@ def run(ctx, broken):
         same = p.val(x) == p.val(y)
         cc.append({"src": a_src + " || " + b_src, "cmd": "prog2", "expect": "sat" if same else "unsat", "rv": None,
                    "tags": ["copy-constraint", "copy-equal-values" if same else "copy-split-class"]})
+    # a witness wired into several slots of ONE gate and used nowhere else (x*x, boolean-style rows): the instance gives the slots
+    # different witnesses — every pair of columns, values different (unsat) or equal (sat)
+    cols = ["a", "b", "c", "d"]
+    for (c1, c2) in [(0, 1), (0, 2), (0, 3), (1, 2), (1, 3), (2, 3)]:
+        for same in (False, True):
+            p = Prog()
+            if rng.coin(1, 2):
+                body(rng, p)
+            x = p.w(rng.fe()); y = p.w(p.val(x) if same else (p.val(x) + 1 + rng.below(5)) % R)
+            def row(w1, w2):
+                ws = ["#0"] * 4; ws[c1] = p.ref(w1); ws[c2] = p.ref(w2)
+                return "gate 0 0 0 0 0 0 - %s" % " ".join(ws)
+            cc.append({"src": p.src() + ";" + row(x, x) + " || " + p.src() + ";" + row(x, y), "cmd": "prog2",
+                       "expect": "sat" if same else "unsat", "rv": None,
+                       "tags": ["copy-constraint", "copy-within-one-gate-%s%s" % (cols[c1], cols[c2]), "copy-equal-values" if same else "copy-split-class"]})
     for i in range(6 if ctx.tier == "quick" else 40):
         p = Prog(); body(rng, p)
         cc.append({"src": p.src() + " || " + p.src() + ";" + NOOP, "cmd": "prog2", "expect": "sizeerr", "rv": None,
